@@ -135,15 +135,122 @@ def _res(fn):
         return [1, core.canon_code(core.classify_exception(e))]
 
 
+
+def _buf(l):
+    """decoder input: bytes, or (for inputs of odd length) a bytearray -- the decoders accept both"""
+    return bytearray(l) if len(l) % 2 else bytes(l)
+
+
+def _frame_fields(f):
+    return [_fhdr_fields(f.header), _tfdf_fields(f.tfdf), list(f.tfdf.tfdz), _of_ob(f.insert_zone),
+            _of_ob(f.op_ctrl_field), _of_ob(f.fecf), [f.len()]]
+
+
+HDR_ATTRS = ["scid", "src_dest", "vcid", "map_id", "frame_len", "bypass_seq_ctrl_flag", "prot_ctrl_cmd_flag", "op_ctrl_flag",
+             "vcf_count_len"]
+
+
+def _set_hdr_attr(h, k, v):
+    if k == 1:
+        v = _sd(v)
+    elif k == 7:
+        v = _bool(v)
+    setattr(h, HDR_ATTRS[k], v)
+
+
+def _frame_view(f):
+    return [0, f.len(), f.header.frame_len if isinstance(f.header, uh.PrimaryHeader) else -1, f.tfdf.len()] + \
+        _fhdr_fields(f.header) + _tfdf_fields(f.tfdf)
+
+
+def _roundtrip(f, tr, ft):
+    """pack, then decode the octets (followed by two foreign octets) with the managed parameters matching the object"""
+    raw = f.pack(truncated=tr, frame_type=ft)
+    fixed = int(f.tfdf.tfdz_contr_rules) in (0, 1, 2)
+    kw = dict(has_insert_zone=f.insert_zone is not None, has_fecf=f.fecf is not None,
+              insert_zone_len=None if f.insert_zone is None else len(f.insert_zone),
+              fecf_len=None if f.fecf is None else len(f.fecf))
+    if fixed:
+        p = uf.FixedFrameProperties(fixed_len=len(raw), **kw)
+    else:
+        p = uf.VarFrameProperties(truncated_frame_len=len(raw), **kw)
+    return uf.TransferFrame.unpack(raw_frame=bytearray(raw) + b"\xa5\x5a",
+                                   frame_type=uf.FrameType.FIXED if fixed else uf.FrameType.VARIABLE, frame_properties=p)
+
+
+def _part(l):
+    """optional octets; bytes or bytearray (alternating with the length, both are accepted by the library)"""
+    if not (l and l[0]):
+        return None
+    return bytearray(l[1:]) if len(l) % 2 else bytes(l[1:])
+
+
+def _frame_op(cur, o, tr, ft):
+    """one operation of a wide history on the frame object cur[0]; returns the rows it emits"""
+    from harness import core
+    f = cur[0]
+    k = o[0] if o else 3
+    try:
+        if k == 0:
+            f.tfdf.tfdz = bytes(o[1:])
+        elif k == 1:
+            f.set_frame_len_in_header()
+        elif k == 4:
+            f.insert_zone = _part(o[1:])
+        elif k == 5:
+            f.op_ctrl_field = _part(o[1:])
+        elif k == 6:
+            f.fecf = _part(o[1:])
+        elif k == 7:
+            _set_hdr_attr(f.header, o[1], o[2])
+        elif k == 8:
+            f.header.vcf_count = o[2] if o[1] else None
+        elif k == 9:
+            f.tfdf.fhp_or_lvop = o[2] if o[1] else None
+        elif k == 10:
+            f.tfdf.tfdz_contr_rules = _rules(o[1])
+        elif k == 11:
+            f.tfdf.uslp_ident = o[1]
+        elif k == 12:
+            f.tfdf = uf.TransferFrameDataField(tfdz_cnstr_rules=_rules(o[1]), uslp_ident=o[2], tfdz=bytes(o[5:]),
+                                               fhp_or_lvop=o[4] if o[3] else None)
+        elif k == 13:
+            cur[0] = f = _roundtrip(f, tr, ft)
+        elif k == 16:
+            d = o[1:]
+            ba = bytearray(d[:len(d) // 2])
+            f.tfdf.tfdz = ba
+            ba.extend(bytes(d[len(d) // 2:]))      # the caller's buffer grows in place ...
+            f.tfdf.tfdz = ba                       # ... and is assigned again
+        elif k == 17:
+            f.tfdf.tfdz = bytes(o[1:])
+            f.tfdf.tfdz = bytes(o[1:])
+    except BaseException as e:  # noqa
+        if isinstance(e, (KeyboardInterrupt, SystemExit, MemoryError)):
+            raise
+        return [[1, core.canon_code(core.classify_exception(e))]]
+    if k == 2:
+        return [_res(lambda: f.pack(truncated=tr, frame_type=ft))]
+    if k == 14:
+        try:
+            g = _roundtrip(f, tr, ft)
+        except BaseException as e:  # noqa
+            if isinstance(e, (KeyboardInterrupt, SystemExit, MemoryError)):
+                raise
+            return [[1, core.canon_code(core.classify_exception(e))]]
+        return [[0]] + _frame_fields(g)
+    return [_frame_view(f)]
+
+
 def impl(op, a):
     if op == 1600:
         return [list(_phdr(a[0]).pack())]
     if op == 1601:
-        h = uh.PrimaryHeader.unpack(bytes(a[0]), a[1][0]); return [_phdr_fields(h), [h.len()]]
+        h = uh.PrimaryHeader.unpack(_buf(a[0]), a[1][0]); return [_phdr_fields(h), [h.len()]]
     if op == 1602:
         return [list(_thdr(a[0]).pack())]
     if op == 1603:
-        h = uh.TruncatedPrimaryHeader.unpack(bytes(a[0]), a[1][0]); return [_base_fields(h), [h.len()]]
+        h = uh.TruncatedPrimaryHeader.unpack(_buf(a[0]), a[1][0]); return [_base_fields(h), [h.len()]]
     if op == 1604:
         return [[uh.determine_header_type(bytes(a[0])).value]]
     if op == 1605:
@@ -157,7 +264,7 @@ def impl(op, a):
     if op == 1611:
         return [list(_tfdf(a[0], a[1]).pack(truncated=bool(a[2][0]), frame_type=_ft(a[2][1])))]
     if op == 1612:
-        t = uf.TransferFrameDataField.unpack(raw_tfdf=bytes(a[0]), truncated=bool(a[1][0]), exact_len=a[1][1],
+        t = uf.TransferFrameDataField.unpack(raw_tfdf=_buf(a[0]), truncated=bool(a[1][0]), exact_len=a[1][1],
                                              frame_type=_ft(a[1][2]))
         return [_tfdf_fields(t), list(t.tfdz)]
     if op == 1613:
@@ -202,6 +309,40 @@ def impl(op, a):
             else:
                 out.append([f.len(), f.header.frame_len if isinstance(f.header, uh.PrimaryHeader) else -1, f.tfdf.len()])
         return out
+    if op == 1627:
+        buf = bytearray(a[0])
+        p = _props(a[1])
+        f = uf.TransferFrame.unpack(raw_frame=buf, frame_type=_ft(0 if a[1][0] == 0 else 1), frame_properties=p)
+        for i in range(len(buf)):
+            buf[i] ^= 0xFF                   # the caller re-uses its receive buffer
+        return _frame_fields(f)
+    if op == 1628:
+        x = uf.TransferFrame.unpack(raw_frame=bytes(a[0]), frame_type=_ft(0 if a[1][0] == 0 else 1), frame_properties=_props(a[1]))
+        y = uf.TransferFrame.unpack(raw_frame=bytearray(a[2]), frame_type=_ft(0 if a[3][0] == 0 else 1), frame_properties=_props(a[3]))
+        return _frame_fields(x) + _frame_fields(y)
+    if op == 1631:
+        h = _fhdr(a[0])
+        rows = []
+        for o in a[1:]:
+            k = o[0] if o else 4
+            if k == 0:
+                _set_hdr_attr(h, o[1], o[2])
+            elif k == 1:
+                h.vcf_count = o[2] if o[1] else None
+            if k == 2:
+                rows.append(_res(h.pack))
+            elif k == 3:
+                rows.append([0, h.len()])
+            else:
+                rows.append([0] + _fhdr_fields(h))
+        return rows
+    if op == 1633:
+        cur = [_frame(a)]
+        tr, ft = bool(a[6][0]), _ft(a[6][1])
+        rows = []
+        for o in a[7:]:
+            rows.extend(_frame_op(cur, o, tr, ft))
+        return rows
     raise RuntimeError("bad op")
 
 
@@ -613,10 +754,237 @@ def frame_streams(tier, rng):
     yield "exh_props_ctor", "exact", cases
 
 
+
+
+# ------------------------------------------------------------------ hardening: wide histories, sizes, buffers
+def rand_zone(rng, sizes):
+    n = rng.choice(sizes)
+    return [0] if n is None else [1] + rbytes(rng, n)
+
+
+def rand_wide_ops(rng, a, n_ops):
+    """operations of a wide history on frame a (public attributes of the frame, its header and its data field)"""
+    primary = a[0][0] == 1
+    ops = []
+    for _ in range(n_ops):
+        r = rng.random()
+        if r < 0.16:
+            o = [rng.choice([0, 0, 16, 17])] + rbytes(rng, rng.choice([0, 1, 2, 5, 30]))
+        elif r < 0.28:
+            o = [1]
+        elif r < 0.44:
+            o = [2]
+        elif r < 0.50:
+            o = [3]
+        elif r < 0.56:
+            o = [4] + rand_zone(rng, [None, 0, 1, 3, 8])
+        elif r < 0.62:
+            o = [5] + (rand_zone(rng, [None, 4, 4, 4, 0, 3]) if primary else [0])
+        elif r < 0.68:
+            o = [6] + rand_zone(rng, [None, 2, 2, 4, 1, 0])
+        elif r < 0.78:
+            k = rng.randrange(9 if primary else 4)
+            v = [rng.choice([0, 1, 0xFFFF, 0x8000, rng.randrange(65536)]), rng.randrange(2), rng.choice([0, 63, rng.randrange(64)]),
+                 rng.choice([0, 15, rng.randrange(16)]), rng.choice([0, 1, 255, 256, 65535, rng.randrange(64)]), rng.randrange(2),
+                 rng.randrange(2), rng.randrange(2), rng.randrange(8)][k]
+            if rng.random() < 0.04:
+                v = [65536, 2, 64, 16, 65536, 2, 2, 2, 8][k]        # one past the field
+            o = [7, k, v]
+        elif r < 0.82:
+            if primary:
+                n = a[0][9]
+                o = [8] + rng.choice([[0, 0], [1, 0], [1, 256 ** max(n, 1) - 1], [1, rng.randrange(256 ** max(n, 1))]])
+            else:
+                o = [3]
+        elif r < 0.86:
+            o = [9] + rng.choice([[0, 0], [1, 0], [1, 0xFFFF], [1, rng.randrange(65536)]])
+        elif r < 0.89:
+            o = [10, rng.randrange(8)]
+        elif r < 0.91:
+            o = [11, rng.choice([0, 1, 31, rng.randrange(32)])]
+        elif r < 0.94:
+            t = rand_tfdf_s(rng)
+            o = [12] + t + rbytes(rng, rng.choice([0, 1, 4, 12]))
+        elif r < 0.97:
+            o = [13]
+        else:
+            o = [14]
+        ops.append(o)
+    return ops
+
+
+def sized_frame(rng, rule, n_dz, iz, ocf, fecf, kind=1, vcf_n=None, fill=None):
+    """a consistent frame with a data zone of n_dz octets, its octets by the independent layout, frame type, truncated"""
+    dz = [fill] * n_dz if fill is not None else rbytes(rng, n_dz)
+    a = mk_frame(rng, kind, rule, 1 if (rule < 3 and kind == 1) else 0, iz, ocf if kind == 1 else [0], fecf, n=vcf_n, dz=dz)
+    if kind == 1:
+        a = set_len(a)
+    tr = 1 if kind == 0 else 0
+    return a, frame_layout(a, rule < 3 and not tr), (0 if rule < 3 else 1), tr
+
+
+def harden_streams(tier, rng):
+    big = tier == "thorough"
+    # G. wide histories (up to 10 operations): every public attribute of frame / header / data field, parts
+    #    replaced, in-place edited buffers, the decoded object used again
+    cases = []
+    for _ in range(9000 if big else 1800):
+        kind = 1 if rng.random() < 0.8 else 0
+        rule = rng.randrange(3, 8) if kind == 0 else rng.randrange(8)
+        a = mk_frame(rng, kind, rule, 1 if (rule < 3 and rng.random() < 0.9) else rng.choice([0, 0, 0, 1]),
+                     rng.choice(IZS), rng.choice(OCFS) if kind else [0], rng.choice(FECFS))
+        if kind and rng.random() < 0.8:
+            a = set_len(a)
+        ft = rng.choice([2, 2, 0 if rule < 3 else 1])
+        ops = rand_wide_ops(rng, a, rng.randrange(1, 11))
+        if rng.random() < 0.5:
+            ops += [[1], rng.choice([[13], [14]]), rng.choice([[0] + rbytes(rng, rng.choice([0, 3, 9])), [3]]), [1], [2], [3]][:rng.randrange(2, 7)]
+        cases.append((1633, a + [[1 if kind == 0 else 0, ft]] + ops))
+    # the decoded object used again, for every construction rule and option combination
+    for iz, ocf, fecf, rule in itertools.product(IZS, OCFS, FECFS, range(8)):
+        a, raw, ft, tr = sized_frame(rng, rule, rng.choice([0, 1, 7]), iz, ocf, fecf)
+        d = rbytes(rng, rng.choice([0, 2, 11]))
+        cases.append((1633, a + [[0, rng.choice([2, ft])], [13], [3], [rng.choice([0, 16, 17])] + d, [3], [1], [2], [14], [13], [2]]))
+    # a refused replacement of the data field (data zone beyond the constructor's limit): nothing may change
+    for has in (0, 1):
+        a, raw, ft, tr = sized_frame(rng, 0 if has else 7, 5, [1, 9], [0], [1, 1, 2])
+        big_dz = [0x77] * (65528 - (2 if has else 0))
+        cases.append((1633, a + [[0, 2], [3], [12, a[1][0], 1, has, 7] + big_dz, [3], [2], [14],
+                                 [12, a[1][0], 1, has, 7] + big_dz[:-2], [3]]))
+    yield "frame_wide_histories", "exact", cases
+    # H. header objects on their own: every attribute assigned, pack / len in between
+    cases = []
+    for _ in range(6000 if big else 1200):
+        primary = rng.random() < 0.7
+        h = [1] + rand_phdr(rng) if primary else [0] + rand_base(rng)
+        ops = []
+        for _ in range(rng.randrange(1, 11)):
+            r = rng.random()
+            if r < 0.5:
+                k = rng.randrange(9 if primary else 4)
+                v = [rng.choice([0, 1, 0xFFFF, 0xF00F, rng.randrange(65536)]), rng.randrange(2), rng.choice([0, 63, 7, 56, rng.randrange(64)]),
+                     rng.choice([0, 15, rng.randrange(16)]), rng.choice([0, 255, 256, 65535, rng.randrange(65536)]), rng.randrange(2),
+                     rng.randrange(2), rng.randrange(2), rng.randrange(8)][k]
+                if rng.random() < 0.06:
+                    v = [65536, 1, 64, 16, 65535, 1, 1, 1, 7][k] if rng.random() < 0.5 else [-1, 0, -1, -1, 0, 0, 0, 0, 0][k]
+                ops.append([0, k, v])
+            elif r < 0.6 and primary:
+                n = rng.randrange(8)
+                ops.append([0, 8, n]); ops.append([1] + rand_count(rng, n))
+            elif r < 0.85:
+                ops.append([2])
+            elif r < 0.92:
+                ops.append([3])
+            else:
+                ops.append([4])
+        cases.append((1631, [h] + ops[:12]))
+    yield "hdr_attribute_histories", "exact", cases
+    # I. data zone size sweep: every length 0..1100 through set_frame_len + pack and through unpack (with trailing
+    #    octets, from a bytearray that is overwritten); 4 KiB and the frame-length limit
+    cases = []
+    lens = list(range(0, 1101)) + [4095, 4096, 4097]
+    for n in lens:
+        rule = rng.randrange(8)
+        iz, ocf, fecf = rng.choice(IZS), rng.choice(OCFS), rng.choice(FECFS)
+        kind = 0 if (rule >= 3 and n % 7 == 3) else 1
+        a, raw, ft, tr = sized_frame(rng, rule, n, iz, ocf, fecf, kind=kind, fill=rng.choice([None, None, 0, 0x80, 0xFF]))
+        cases.append((1623, a + [[tr, rng.choice([ft, 2])]]))
+        sfx = rbytes(rng, rng.choice([0, 0, 1, 2, 600])) if n % 2 else []
+        cases.append((1627 if n % 3 else 1625, [raw + sfx, props_for(a, ft, len(raw))]))
+    for total in (65534, 65535, 65536):
+        for rule in (0, 3, 7):
+            iz, ocf, fecf = rng.choice(IZS), rng.choice(OCFS), rng.choice(FECFS)
+            hl = 7
+            n = total - hl - 1 - (2 if rule < 3 else 0) - sum(len(x) - 1 for x in (iz, ocf, fecf) if x[0])
+            a, raw, ft, tr = sized_frame(rng, rule, n, iz, ocf, fecf, vcf_n=0, fill=0x5A)
+            cases.append((1623, a + [[0, 2]]))
+            cases.append((1625, [raw, props_for(a, ft, len(raw))]))
+    for n in (65523, 65524, 65525, 65526, 65527, 65528, 65529):      # around the TFDF limit: refused by the constructor or packed whole
+        cases.append((1621, [[0, 5, 0, 1, 1], [7, 0, 0, 0], [0x33] * n, [0], [0], [0], [1, 2]]))
+        cases.append((1621, [[0, 5, 0, 1, 1], [0, 0, 1, 9], [0x33] * (n - 2), [0], [0], [0], [0, 0]]))
+    # the data field decoder on its own: every exact_len 1..1100 inside a longer buffer
+    for ex in range(1, 1101):
+        r = rng.randrange(8)
+        raw = [(r << 5) | rng.randrange(32)] + rbytes(rng, ex - 1 + rng.choice([0, 1, 2, 40]))
+        cases.append((1612, [raw, [rng.randrange(2), ex, rng.choice([0 if r < 3 else 1, 2])]]))
+    # headers in front of long buffers (every count length), bytes and bytearray
+    for n in range(8):
+        for extra in (0, 1, 505, 506, 1093):
+            lay = phdr_layout(rand_phdr(rng, n=n))
+            cases.append((1601, [lay + rbytes(rng, extra), [12]]))
+            cases.append((1603, [base_layout(*rand_base(rng), 1) + rbytes(rng, extra), [12]]))
+    yield "exh_frame_dz_sizes", "exact", cases
+    # J. every insert-zone / OCF / FECF size combination; absent zone with a configured size; sizes up to the limit
+    cases = []
+    iz_sizes = [None, 0, 1, 2, 7, 255, 256, 1000]
+    fe_sizes = [None, 0, 1, 2, 4, 16, 255, 256, 1000]
+    for izn, fen, oc in itertools.product(iz_sizes, fe_sizes, (0, 1)):
+        for rep in range(2 if big else 1):
+            rule = rng.randrange(8)
+            kind = 0 if (rule >= 3 and not oc and rng.random() < 0.25) else 1
+            iz = [0] if izn is None else [1] + rbytes(rng, izn)
+            fe = [0] if fen is None else [1] + rbytes(rng, fen)
+            a, raw, ft, tr = sized_frame(rng, rule, rng.choice([0, 1, 2, 9]), iz, [1, 1, 2, 3, 4] if oc else [0], fe, kind=kind)
+            good = props_for(a, ft, len(raw))
+            cases.append((1625, [raw, good]))
+            cases.append((1623, a + [[tr, ft]]))
+            if izn is None:
+                for k in (0, 1, 2, 1000):
+                    p = list(good); p[5] = 1; p[6] = k; cases.append((1625, [raw, p]))      # absent, but a size is configured
+            if fen is None:
+                for k in (0, 1, 2, 4, 1000):
+                    p = list(good); p[7] = 1; p[8] = k; cases.append((1625, [raw + rbytes(rng, rng.randrange(3)), p]))
+            if izn is None and fen is None:
+                p = list(good); p[5] = 1; p[6] = 2; p[7] = 1; p[8] = 2; cases.append((1627, [raw, p]))
+    for izn, fen in ((65000, None), (None, 65000), (32000, 33000), (-1, 2), (2, -1)):
+        rule = rng.choice([0, 7])
+        room = 65536 - 7 - (1 + (2 if rule < 3 else 0) + 3) - 4          # what the largest frame leaves for the two zones
+        izn = room - fen if izn == -1 else izn
+        fen = room - izn if fen == -1 else fen
+        iz = [0] if izn is None else [1] + [0x11] * izn
+        fe = [0] if fen is None else [1] + [0x22] * fen
+        a, raw, ft, tr = sized_frame(rng, rule, 3, iz, [1, 1, 2, 3, 4], fe, vcf_n=0)
+        assert len(raw) <= 65536 and max(raw) < 256
+        cases.append((1625, [raw, props_for(a, ft, len(raw))]))
+        cases.append((1623, a + [[0, ft]]))
+    yield "frame_zone_size_combinations", "exact", cases
+    # K. three boundaries at once: minimal data field (1..4 octets) x insert zone x OCF x FECF x count length,
+    #    frame length field exact / one off, buffer exact / longer
+    cases = []
+    for rule, tl, izn, oc, fen, n in itertools.product(range(8), (1, 2, 3, 4), (None, 0, 1, 5), (0, 1), (None, 2, 4), (0, 7)):
+        if not big and rng.random() < 0.5:
+            continue
+        hdr = rand_phdr(rng, n=n, ocf=oc)
+        body = [(rule << 5) | rng.randrange(32)] + rbytes(rng, tl - 1)
+        iz = [] if izn is None else rbytes(rng, izn)
+        fe = [] if fen is None else rbytes(rng, fen)
+        raw = phdr_layout(hdr) + iz + body + ([9, 8, 7, 6] if oc else []) + fe
+        ft = 0 if rule < 3 else 1
+        for d in (0, 0, -1, 1):
+            m = list(raw); v = (len(raw) - 1 + d) % 65536; m[4], m[5] = v >> 8, v & 0xFF
+            p = [ft, 1 - ft, len(raw) if ft == 0 else 9, int(izn is not None), int(fen is not None), int(izn is not None), izn or 0,
+                 int(fen is not None), fen or 0]
+            cases.append((1625, [m + (rbytes(rng, 3) if rng.random() < 0.3 else []), p]))
+    yield "frame_triple_boundaries", "exact", cases
+    # L. frames decoded from longer buffers (next frame / >= 512 octets behind) and from bytearrays that are
+    #    overwritten afterwards; two frames decoded in a row and both inspected afterwards
+    cases = []
+    cons = consistent_frames(rng, 2 if big else 1)
+    for a, raw, ft, tr in cons:
+        good = props_for(a, ft, len(raw))
+        b, raw2, ft2, tr2 = rng.choice(cons)
+        cases.append((1627, [raw + raw2, good]))
+        if rng.random() < 0.3:
+            cases.append((1627, [raw + rbytes(rng, rng.choice([512, 513, 1024])), good]))
+        cases.append((1628, [raw + rbytes(rng, rng.randrange(3)), good, raw2, props_for(b, ft2, len(raw2))]))
+    yield "frame_long_buffers_two_in_a_row", "exact", cases
+
+
 def streams(tier, rng):
     yield from hdr_streams(tier, rng)
     yield from tfdf_streams(tier, rng)
     yield from frame_streams(tier, rng)
+    yield from harden_streams(tier, rng)
 
 
 # ------------------------------------------------------------------ oracle
@@ -664,6 +1032,10 @@ def frame_consistent(a, unused_pointer=False):
     if h[0] == 1 and bool(h[8]) != has_ocf:
         return False
     if h[0] == 0 and has_ocf:
+        return False
+    # the constructor documents ValueError for a data zone beyond its size limit (USLP_TFDF_MAX_SIZE minus twice
+    # the data field header, i.e. slightly below the standard's 65529)
+    if 1 + (2 if has else 0) + len(d) > 65529 - (3 if has else 1):
         return False
     return True
 
@@ -771,8 +1143,22 @@ def oracle(case, ires, sres):
             if ires[2] != b[0] or (exp[4] * 256 + exp[5]) != len(exp) - 1:
                 return ("C17/TransferFrame.set_frame_len_in_header", "header %s, packed size %d" % (ires[2], len(exp)))
         return None
-    if op == 1625:
-        return oracle_unpack(a, ires, err, code)
+    if op in (1625, 1627):
+        r = oracle_unpack(a, ires, err, code)
+        if r and op == 1627 and not err:
+            return (r[0].replace("/fields", "/fields-after-buffer-reuse"), r[1])
+        return r
+    if op == 1628:
+        if err:
+            return oracle_unpack(a[:2], ires, err, code) if expected_unpack(a[0], a[1]) and expected_unpack(a[0], a[1])[0] == "err" else None
+        r = oracle_unpack(a[:2], [[0]] + ires[1:8], False, None)
+        if r:
+            return ("C17/TransferFrame.unpack/first-frame-after-second", "frame decoded first, inspected after decoding another one: " + r[1])
+        return oracle_unpack(a[2:4], [[0]] + ires[8:15], False, None)
+    if op == 1631:
+        return oracle_hdr_history(a, ires)
+    if op == 1633:
+        return oracle_wide_history(a, ires)
     if op == 1630:
         if err:
             return None
@@ -786,6 +1172,159 @@ def oracle(case, ires, sres):
             else:
                 last_len = out[0]
         return None
+    return None
+
+
+
+def oracle_hdr_history(a, ires):
+    """a header object after any sequence of attribute assignments packs to the standard's octets for its
+    current values, reports them, and len() is the packed size; identifiers outside their ranges are refused"""
+    h = list(a[0])
+    if ires[0] != [0]:
+        return None
+    for n, (o, row) in enumerate(zip(a[1:], ires[1:])):
+        k = o[0] if o else 4
+        if k == 0:
+            h[1 + o[1]] = o[2]
+        elif k == 1 and h[0] == 1:
+            h[10], h[11] = (1, o[2]) if o[1] else (0, 0)
+        what = "header %s after %s" % (a[0], a[1:2 + n])
+        if k == 2:
+            if not ids_ok(h[1:]):
+                if row[0] != 1 or row[1] not in (1, 2, 3):
+                    return ("C17/header.attributes/id-range", "%s: out-of-range identifier packed: %s" % (what, row))
+            elif hdr_ok(h):
+                if row != [0] + hdr_layout(h):
+                    return ("C17/header.attributes/pack-layout", "%s: pack() = %s, standard says %s for %s" % (what, row, hdr_layout(h), h))
+        elif k == 3:
+            if row != [0, 4 if h[0] == 0 else 7 + h[9]]:
+                return ("C17/header.attributes/len", "%s: len() = %s" % (what, row))
+        else:
+            exp = [0] + (h[:5] if h[0] == 0 else h[:10] + ([1, h[11]] if h[10] else [0, 0]))
+            if row != exp:
+                return ("C17/header.attributes/fields", "%s: object reports %s, expected %s" % (what, row, exp))
+    return None
+
+
+def oracle_wide_history(a, ires):
+    """reference simulation of a wide history.  While the object is one the standard defines (frame_consistent) its
+    pack() must be the layout of its current parts; while in addition the cached data field size is up to date
+    (no pointer assigned since the data zone was last set) len() must be the packed size, set_frame_len_in_header
+    must store that minus one, and decoding the packed octets with matching managed parameters must give the same
+    parts back."""
+    if ires[0] != [0]:
+        return None
+    h, t, dz, iz, ocf, fe = [list(x) for x in a[:6]]
+    tr, ft = a[6][0], a[6][1]
+    norm = lambda z: [1] + list(z[1:]) if z and z[0] else [0]
+    iz, ocf, fe = norm(iz), norm(ocf), norm(fe)
+    fresh = True            # cached size of the data field corresponds to (pointer, data zone)
+    rows = list(ires[1:])
+    pos = 0
+
+    def state():
+        return [h, t, dz, iz, ocf, fe, [tr, ft]]
+
+    def total():
+        return frame_total(state()[:6], with_ptr=t[2])
+
+    for n, o in enumerate(a[7:]):
+        if pos >= len(rows):
+            return None
+        row = rows[pos]
+        k = o[0] if o else 3
+        what = "frame %s, truncated=%d ft=%d, operations %s" % ([x[:12] for x in a[:6]], tr, ft, [x[:8] for x in a[7:8 + n]])
+        if row[0] == 1 and k not in (2, 14):
+            if k == 13:
+                if frame_consistent(state()) and fresh and (h[0] == 0 or h[5] == total() - 1):
+                    return ("C17/TransferFrame.unpack/own-output-refused", "%s: unpack(pack()) with matching parameters raised %s" % (what, row))
+                pos += 1
+                continue
+            if k == 12:
+                pos += 1
+                continue
+            return None
+        if k in (0, 16, 17):
+            dz = list(o[1:]); fresh = True
+        elif k == 4:
+            iz = norm(o[1:])
+        elif k == 5:
+            ocf = norm(o[1:])
+        elif k == 6:
+            fe = norm(o[1:])
+        elif k == 7:
+            h[1 + o[1]] = o[2]
+        elif k == 8 and h[0] == 1:
+            h[10], h[11] = (1, o[2]) if o[1] else (0, 0)
+        elif k == 9:
+            t[2], t[3] = (1, o[2]) if o[1] else (0, 0)
+            fresh = False
+        elif k == 10:
+            t[0] = o[1]
+        elif k == 11:
+            t[1] = o[1]
+        elif k == 12:
+            t = list(o[1:5]); t[3] = t[3] if t[2] else 0; dz = list(o[5:]); fresh = True
+        cons = frame_consistent(state())
+        sized = cons and fresh
+        if k == 1 and h[0] == 1:
+            if sized:
+                h[5] = total() - 1
+            else:
+                h[5] = row[2]          # no opinion on the value: follow the object
+        if k == 2:
+            if cons:
+                exp = frame_layout(state()[:6], has_pointer(t[0], tr))
+                if row != [0] + exp:
+                    return ("C17/TransferFrame.history/pack-layout", "%s: pack() = %s, standard says %s" % (what, row[:60], exp[:60]))
+            pos += 1
+            continue
+        if k == 14:
+            if cons and fresh and (h[0] == 0 or h[5] == total() - 1):
+                if row != [0]:
+                    return ("C17/TransferFrame.unpack/own-output-refused", "%s: unpack(pack()) with matching parameters raised %s" % (what, row))
+                r = check_decoded(state(), rows[pos + 1:pos + 8], what)
+                if r:
+                    return r
+            pos += 8 if row == [0] else 1
+            continue
+        if k == 13:
+            if cons and fresh and (h[0] == 0 or h[5] == total() - 1):
+                if h[0] == 1 and not h[10]:
+                    h[10], h[11] = 1, 0         # a decoded header always carries a count (0 for length 0)
+            else:
+                return None                      # outside the defined domain: the rest follows the object
+        # view row: [0, len, header frame_len, tfdf len] + header fields + tfdf fields
+        hf = h[:5] if h[0] == 0 else h[:10] + ([1, h[11]] if h[10] else [0, 0])
+        exp_fields = hf + [t[0], t[1]] + ([1, t[3]] if t[2] else [0, 0])
+        got_fields = row[4:4 + len(hf)] + row[4 + len(hf):4 + len(hf) + 4]
+        if got_fields != exp_fields:
+            return ("C17/TransferFrame.history/fields", "%s: object reports %s, expected %s" % (what, got_fields, exp_fields))
+        if sized:
+            if row[1] != total() or row[3] != 1 + (2 if t[2] else 0) + len(dz):
+                return ("C17/TransferFrame.len/stale", "%s: len() = %d, data field len() = %d; the parts add up to %d / %d" % (
+                    what, row[1], row[3], total(), 1 + (2 if t[2] else 0) + len(dz)))
+            if k == 1 and h[0] == 1 and row[2] != total() - 1:
+                return ("C17/TransferFrame.set_frame_len_in_header", "%s: frame length field %d, packed size %d" % (what, row[2], total()))
+        pos += 1
+    return None
+
+
+def check_decoded(st, rows, what):
+    h, t, dz, iz, ocf, fe = st[:6]
+    if len(rows) < 7:
+        return ("C17/TransferFrame.unpack/own-output-fields", "%s: short result %s" % (what, rows))
+    hdr, tf, tfdz, giz, gocf, gfe, ln = rows[:7]
+    eh = list(h)
+    if eh[0] == 1 and not eh[10]:
+        eh[10], eh[11] = 1, 0
+    exp_hdr = eh[:5] if eh[0] == 0 else eh[:10] + [1, eh[11]]
+    tot = frame_total(st[:6], with_ptr=t[2])
+    ok = (hdr == exp_hdr and tf[:2] == t[:2] and tf[2:4] == ([1, t[3]] if t[2] else [0, 0]) and tfdz == dz and giz == iz and
+          (gocf[1:] if gocf[0] else []) == ocf[1:] and gfe == fe and ln == [tot])
+    if not ok:
+        return ("C17/TransferFrame.unpack/own-output-fields",
+                "%s: decoding the packed object gave %s, the object holds %s" % (what, [r[:24] for r in rows[:7]], [x[:24] for x in st[:6]]))
     return None
 
 
